@@ -124,7 +124,14 @@ func synText(n int) string {
 
 func init() {
 	synthetic["syn-large.txt"] = synText(9000)
+	// many small licenses (more than any batch or table size one would pick for 178 files)
+	for i := 0; i < 520; i++ {
+		w := fmt.Sprintf("m%c%c%c", 'a'+i%26, 'a'+(i/26)%26, 'a'+i/676)
+		synthetic[manyName(i)] = fmt.Sprintf("this software license number %s grants %sx rights under the terms %sy and the work %sz is covered", w, w, w, w)
+	}
 }
+
+func manyName(i int) string { return fmt.Sprintf("many-%04d.txt", i) }
 
 var (
 	readOnce sync.Once
@@ -171,7 +178,9 @@ func c15Archive(c *vrep.Ctx) {
 	pool := []string{"MIT.txt", "Apache-2.0.txt", "Apache-2.0.header.txt", "BSD-3-Clause.txt", "ISC.txt", "GPL-2.0.header.txt", "Unlicense.txt", "WTFPL.txt"}
 	var syn []string
 	for n := range synthetic {
-		syn = append(syn, n)
+		if !strings.HasPrefix(n, "many-") {
+			syn = append(syn, n)
+		}
 	}
 	sort.Strings(syn)
 	var sets [][]string
@@ -187,6 +196,16 @@ func c15Archive(c *vrep.Ctx) {
 		}
 		for _, f := range append(files, syn...) {
 			sets = append(sets, []string{f})
+		}
+	case "many":
+		// archives of MANY licenses: every size of the menu; the query menu below takes the members
+		// around the usual power-of-two positions
+		for _, n := range []int{255, 256, 257, 300, 513}[:c.Pick(4, 5)] {
+			var set []string
+			for i := 0; i < n; i++ {
+				set = append(set, manyName(i))
+			}
+			sets = append(sets, set)
 		}
 	case "tuples":
 		base := append(append([]string(nil), pool...), syn[:3]...)
@@ -254,7 +273,17 @@ func c15Archive(c *vrep.Ctx) {
 			}
 			// query menu
 			var queries []string
-			for _, f := range set {
+			qset := set
+			if len(set) > 20 {
+				// members around positions 0, 127/128, 255/256/257 and the last one
+				qset = nil
+				for _, i := range []int{0, 1, 127, 128, 254, 255, 256, 257, len(set) - 1} {
+					if i < len(set) {
+						qset = append(qset, set[i])
+					}
+				}
+			}
+			for _, f := range qset {
 				t := readFile(f)
 				queries = append(queries, t, strings.Replace(t, " the ", " zq ", 3), "preamble text about software\n"+t+"\ntrailing words")
 			}
@@ -291,7 +320,11 @@ func c15Archive(c *vrep.Ctx) {
 				}
 			}
 		}()
-		r.Note = map[string]interface{}{"set": strings.Join(set, "+"), "msg": msg, "nq": nq, "outcomes": outcomes}
+		setName := strings.Join(set, "+")
+		if len(set) > 20 {
+			setName = fmt.Sprintf("%s..%s (%d files)", set[0], set[len(set)-1], len(set))
+		}
+		r.Note = map[string]interface{}{"set": setName, "msg": msg, "nq": nq, "outcomes": outcomes}
 	}
 	c.Run(c.Explorer(0), body, func(r *vx.Run) {
 		set := r.Note["set"].(string)
